@@ -87,6 +87,22 @@ func condName(v ssa.Value) (name string, flipped bool) {
 		}
 		l, r := side(x.X), side(x.Y)
 		if l != "?" || r != "?" {
+			// canonical form: only "<" and "==" are used; a<=b is !(b<a), a>b is b<a, a>=b is !(a<b), a!=b is !(a==b)
+			switch x.Op {
+			case token.LSS:
+				return "cmp:" + l + "<" + r, false
+			case token.GTR:
+				return "cmp:" + r + "<" + l, false
+			case token.LEQ:
+				return "cmp:" + r + "<" + l, true
+			case token.GEQ:
+				return "cmp:" + l + "<" + r, true
+			case token.EQL, token.NEQ:
+				if r < l {
+					l, r = r, l
+				}
+				return "cmp:" + l + "==" + r, x.Op == token.NEQ
+			}
 			return "cmp:" + l + x.Op.String() + r, false
 		}
 	}
